@@ -1323,6 +1323,47 @@ impl Server {
         }
     }
 
+    /// Verification hook `worker_cmd`: emitted when one request read from the
+    /// command channel has been handled (end of `notify` / `notify_proxys` /
+    /// the special cases of `read_channel_messages_and_notify`): the request
+    /// id, how many responses carrying that id were pushed to `QUEUE` while it
+    /// was handled and with which statuses, and the quantities soft-stop
+    /// completion depends on.
+    #[cfg(sozu_verif)]
+    fn verif_worker_cmd(&self, id: &str, verb: &str, queue_before: usize) {
+        if !crate::verif::enabled() {
+            return;
+        }
+        let (mut ok, mut failure, mut processing, mut others) = (0i64, 0i64, 0i64, 0i64);
+        QUEUE.with(|queue| {
+            for response in queue.borrow().iter().skip(queue_before) {
+                if response.id != id {
+                    others += 1;
+                } else if response.status == ResponseStatus::Ok as i32 {
+                    ok += 1;
+                } else if response.status == ResponseStatus::Failure as i32 {
+                    failure += 1;
+                } else {
+                    processing += 1;
+                }
+            }
+        });
+        crate::verif::emit_s(
+            "worker_cmd",
+            &[
+                ("ok", ok),
+                ("failure", failure),
+                ("processing", processing),
+                ("others", others),
+                ("base", self.base_sessions_count as i64),
+                ("slab", self.sessions.borrow().slab.len() as i64),
+                ("accept_ready", self.accept_ready.len() as i64),
+                ("shutting_down", self.shutting_down.is_some() as i64),
+            ],
+            &[("id", id.to_owned()), ("verb", verb.to_owned())],
+        );
+    }
+
     /// Verification hook `loop_idle`: snapshot of the admission / accounting
     /// state right before the event loop goes back to sleep.
     #[cfg(sozu_verif)]
@@ -1432,10 +1473,19 @@ impl Server {
             let request = self.channel.read_message();
             debug!("Received request {:?}", request);
             match request {
-                Ok(request) => match request.content.request_type {
+                Ok(request) => {
+                #[cfg(sozu_verif)]
+                let verif_cmd = (
+                    request.id.clone(),
+                    request.content.short_name().to_owned(),
+                    QUEUE.with(|queue| queue.borrow().len()),
+                );
+                match request.content.request_type {
                     Some(RequestType::HardStop(_)) => {
                         let req_id = request.id.clone();
                         self.notify(request);
+                        #[cfg(sozu_verif)]
+                        self.verif_worker_cmd(&verif_cmd.0, &verif_cmd.1, verif_cmd.2);
                         // The answers to the requests read before this one are
                         // still queued and the loop that flushes the queue ends
                         // here: write them out before the final answer.
@@ -1480,7 +1530,10 @@ impl Server {
                         }
                     }
                     _ => self.notify(request),
-                },
+                }
+                #[cfg(sozu_verif)]
+                self.verif_worker_cmd(&verif_cmd.0, &verif_cmd.1, verif_cmd.2);
+                }
                 // Not an error per se, occurs when there is nothing to read
                 Err(_) => {
                     // if the message was too large, we grow the buffer and retry to read if possible
